@@ -24,7 +24,8 @@ Mon0 == [ np     |-> 0,       \* probes created so far
           plog   |-> <<>>,    \* probe -> its notifications so far, as <<t, v>>
           ph     |-> <<>>,    \* probe -> handle it was subscribed through (0: none)
           hroot  |-> <<>>,    \* handle -> AST it subscribed
-          tl     |-> <<>>,    \* handle -> timeline <<a, t, v>> of the hot inputs since that subscription
+          g      |-> <<>>,    \* global timeline <<a, t, v>> of the notifications sent into the hot inputs
+          h0     |-> <<>>,    \* handle -> length of g when the subscription was made
           unsubd |-> <<>>,    \* handle -> unsubscribe() has returned
           closed |-> <<>>,    \* handle -> is_closed() has answered true
           nh     |-> 0,
@@ -36,7 +37,7 @@ RECURSIVE AddBadSeq(_, _)
 AddBadSeq(m, ids) == IF ids = <<>> THEN m ELSE AddBadSeq(AddBad(m, Head(ids)), Tail(ids))
 SetToSeq(ss) == LET f[T \in SUBSET ss] == IF T = {} THEN <<>> ELSE LET x == CHOOSE y \in T : TRUE IN <<x>> \o f[T \ {x}] IN f[ss]
 AddBads(m, ids) == AddBadSeq(m, SetToSeq(ids))
-RefProps == {"C03", "C04", "C13"}
+RefProps == {"C03", "C04", "C05", "C13"}
 
 (* --- one probe notification --- *)
 LogOne(m, e, checks) ==
@@ -54,16 +55,14 @@ LogOne(m, e, checks) ==
 RECURSIVE LogAll(_, _, _)
 LogAll(m, log, checks) == IF log = <<>> THEN m ELSE LogAll(LogOne(m, Head(log), checks), Tail(log), checks)
 
-(* add a notification to the timeline of every handle *)
-AddInput(tls, ev) == [h \in 1..Len(tls) |-> Append(tls[h], ev)]
 
 (* --- reference check (C03 / C13): every subscription's log equals the documented sequence --- *)
 RefCheck(m) ==
   \A p \in 1..m.np :
      LET h == GetI(m.ph, p) IN
      h > 0 => LET got == IF p <= Len(m.plog) THEN m.plog[p] ELSE <<>> IN
-              \/ got = MsgsOf(Ref(m.hroot[h], m.tl[h], {}))
-              \/ \E var \in (SUBSET AmbiguousChoices) \ {{}} : got = MsgsOf(Ref(m.hroot[h], m.tl[h], var))
+              \/ got = MsgsOf(Ref(m.hroot[h], m.g, m.h0[h], Len(m.g), {}))
+              \/ \E var \in (SUBSET AmbiguousChoices) \ {{}} : got = MsgsOf(Ref(m.hroot[h], m.g, m.h0[h], Len(m.g), var))
 
 (* --- one step --- *)
 MonStep(m0, step, checks) ==
@@ -76,8 +75,10 @@ MonStep(m0, step, checks) ==
                [m EXCEPT !.np = @ + 1, !.nh = @ + 1,
                          !.ph = SetAt(@, m.np + 1, m.nh + 1, 0),
                          !.hroot = Append(@, s.a),
-                         !.tl = Append(@, <<>>)]
-          [] s.k = "emit" \/ s.k = "emitc" -> [m EXCEPT !.tl = AddInput(@, <<s.a, s.t, s.v>>)]
+                         !.h0 = Append(@, Len(m.g))]
+          [] s.k = "emit" -> [m EXCEPT !.g = Append(@, <<s.a, s.t, s.v>>)]
+          [] s.k = "emitc" -> [m EXCEPT !.g = Append(@, <<s.a + 100, s.t, s.v>>)]     \* `create` inputs: own id range
+          [] s.k = "sunsub" -> [m EXCEPT !.g = Append(@, <<s.a, "X", U>>)]
           [] OTHER -> m
       mid == LogAll(pre, o.log, checks)
       (* bookkeeping done AFTER the call has returned *)
